@@ -354,6 +354,116 @@ theorem sim_ffCancel (s s' : St) (fid : Nat) (c : Scan) (bl : Bool) (dropped : N
   · simpa [scanStep] using h1
   · simpa using h1
 
+/-! ### the scanner's per-call bookkeeping of Shutdown calls (`sdPres`, `sdOkRets`) mirrors the model -/
+
+/-- the `pre` sets of the Shutdown calls in call order: the call that won `stopOnce`, then the others -/
+def sdPresOf (s : St) : List (List Nat) := (if s.sd = .none then [] else [s.sdPre]) ++ s.sds.reverse.map (·.pre)
+
+/-- the number of Shutdown calls that have returned nil -/
+def sdOkCount (s : St) : Nat := (if s.sdRetOk then 1 else 0) + s.sds.countP (·.ret)
+
+structure SimSd (s : St) (c : Scan) : Prop where
+  pres : c.sdPres = sdPresOf s
+  oks : c.sdOkRets = sdOkCount s
+
+theorem simSd_init (cap maxB : Nat) (blocking : Bool) : SimSd (init cap maxB blocking) {} := by
+  constructor <;> simp [init, sdPresOf, sdOkCount]
+
+theorem scanStep_sd_other (bl : Bool) (d : Nat) (c : Scan) (ev : Ev) (h1 : ev ≠ .sdCalled)
+    (h2 : ev ≠ .sdReturned true) :
+    (scanStep bl d c ev).sdPres = c.sdPres ∧ (scanStep bl d c ev).sdOkRets = c.sdOkRets := by
+  cases ev <;> simp only [scanStep] <;> (repeat' split) <;> simp_all
+
+theorem foldl_sd_other (bl : Bool) (d : Nat) (evs : List Ev) (c : Scan)
+    (h : ∀ ev ∈ evs, ev ≠ .sdCalled ∧ ev ≠ .sdReturned true) :
+    (evs.foldl (scanStep bl d) c).sdPres = c.sdPres ∧ (evs.foldl (scanStep bl d) c).sdOkRets = c.sdOkRets := by
+  induction evs generalizing c with
+  | nil => exact ⟨rfl, rfl⟩
+  | cons ev r ih =>
+    rw [List.foldl_cons]
+    have h0 := h ev (List.mem_cons_self ..)
+    have := scanStep_sd_other bl d c ev h0.1 h0.2
+    have ih' := ih (scanStep bl d c ev) (fun e he => h e (List.mem_cons_of_mem _ he))
+    exact ⟨ih'.1.trans this.1, ih'.2.trans this.2⟩
+
+/-- every label except the four Shutdown call / return labels leaves the bookkeeping alone on both sides -/
+theorem simSd_other (s s' : St) (l : Lbl) (c : Scan) (bl : Bool) (d : Nat) (h : SimSd s c)
+    (hs : step s l = some s')
+    (hl : l ≠ .sdCall ∧ l ≠ .sdReturnOk ∧ (∀ cid, l ≠ .sdCallLate cid) ∧ (∀ cid, l ≠ .sdReturnLate cid)) :
+    SimSd s' ((emitRaw s l).foldl (scanStep bl d) c) := by
+  have hev : ∀ ev ∈ emitRaw s l, ev ≠ .sdCalled ∧ ev ≠ .sdReturned true := by
+    obtain ⟨a1, a2, a3, a4⟩ := hl
+    cases l <;> simp only [emitRaw] <;> (repeat' split) <;> simp_all
+  have hsc := foldl_sd_other bl d (emitRaw s l) c hev
+  have hm : sdPresOf s' = sdPresOf s ∧ sdOkCount s' = sdOkCount s := by
+    obtain ⟨a1, a2, a3, a4⟩ := hl
+    cases l <;> simp only [step] at hs
+    all_goals (
+      repeat' (split at hs)
+      all_goals (try (simp at hs))
+      all_goals (try subst hs)
+      all_goals (first
+        | exact ⟨rfl, rfl⟩
+        | (simp_all [sdPresOf, sdOkCount])))
+  exact ⟨hsc.1.trans (h.pres.trans hm.1.symm), hsc.2.trans (h.oks.trans hm.2.symm)⟩
+
+theorem countP_setRet (cid : Nat) (sds : List SD) (huniq : (sds.map (·.cid)).Nodup)
+    (h : ∃ c ∈ sds, c.cid = cid ∧ c.ret = false) :
+    (sds.map fun c => if c.cid = cid then { c with ret := true } else c).countP (·.ret) =
+      sds.countP (·.ret) + 1 := by
+  induction sds with
+  | nil => obtain ⟨c, hc, _⟩ := h; simp at hc
+  | cons x r ih =>
+    simp only [List.map_cons, List.nodup_cons, List.mem_map, not_exists, not_and] at huniq
+    obtain ⟨c, hc, hcid, hret⟩ := h
+    simp only [List.mem_cons] at hc
+    by_cases hx : x.cid = cid
+    · -- the entry is `x`; nothing in the rest has that cid
+      have hrest : (r.map fun c => if c.cid = cid then { c with ret := true } else c) = r := by
+        have : (r.map fun c => if c.cid = cid then { c with ret := true } else c) = r.map id :=
+          List.map_congr_left (fun y hy => by
+            have : y.cid ≠ cid := fun e => huniq.1 y hy (e.trans hx.symm)
+            simp [this])
+        simpa using this
+      have hxr : x.ret = false := by
+        rcases hc with hc | hc
+        · rw [← hc]; exact hret
+        · exact absurd (hcid.trans hx.symm) (huniq.1 c hc)
+      simp only [List.map_cons, hx, if_true, hrest, List.countP_cons, hxr]
+      simp
+    · have hc' : c ∈ r := by
+        rcases hc with hc | hc
+        · exact absurd (hc ▸ hcid) hx
+        · exact hc
+      have := ih huniq.2 ⟨c, hc', hcid, hret⟩
+      simp only [List.map_cons, hx, if_false, List.countP_cons, this]
+      omega
+
+theorem countP_lt_of_exists (sds : List SD) (h : ∃ c ∈ sds, c.ret = false) :
+    sds.countP (·.ret) < sds.length := by
+  obtain ⟨c, hc, hr⟩ := h
+  have hle := List.countP_le_length (p := fun c : SD => c.ret) (l := sds)
+  rcases Nat.lt_or_ge (sds.countP (·.ret)) sds.length with hlt | hge
+  · exact hlt
+  · have heq : sds.countP (·.ret) = sds.length := Nat.le_antisymm hle hge
+    have := (List.countP_eq_length.mp heq) c hc
+    simp [hr] at this
+
+theorem length_sdPresOf (s : St) (h : s.sd ≠ .none) : (sdPresOf s).length = 1 + s.sds.length := by
+  simp [sdPresOf, h]
+  omega
+
+theorem mem_sdPresOf (s : St) (p : List Nat) (h : p ∈ sdPresOf s) :
+    (s.sd ≠ .none ∧ p = s.sdPre) ∨ ∃ c ∈ s.sds, p = c.pre := by
+  simp only [sdPresOf, List.mem_append, List.mem_map, List.mem_reverse] at h
+  rcases h with h | ⟨c, hc, he⟩
+  · split at h
+    · simp at h
+    · rename_i hn
+      simp at h
+      exact Or.inl ⟨hn, h⟩
+  · exact Or.inr ⟨c, hc, he.symm⟩
+
 theorem sim_sdCall (s s' : St) (c : Scan) (bl : Bool) (dropped : Nat)
     (h : Sim s c) (hs : step s .sdCall = some s') :
     Sim s' ((emitRaw s .sdCall).foldl (scanStep bl dropped) c) := by
@@ -384,7 +494,8 @@ theorem sim_sdExporterShutdown (s s' : St) (c : Scan) (bl : Bool) (dropped : Nat
   · simp at hs
 
 theorem sim_sdReturnOk (s s' : St) (c : Scan) (dropped : Nat) (hC : InvC s) (hD : InvD s) (hF : InvF s)
-    (h : Sim s c) (hs : step s .sdReturnOk = some s') (hd : s.droppedIds.length ≤ dropped) :
+    (h : Sim s c) (hown : ∃ pre, c.sdPres[c.sdOkRets]? = some pre)
+    (hs : step s .sdReturnOk = some s') (hd : s.droppedIds.length ≤ dropped) :
     Sim s' ((emitRaw s .sdReturnOk).foldl (scanStep s.blocking dropped) c) := by
   obtain ⟨h1, h2, h3, h4, h5, h6, h7, h8, h9, h10, h11, h12⟩ := h
   simp only [step] at hs
@@ -395,9 +506,10 @@ theorem sim_sdReturnOk (s s' : St) (c : Scan) (dropped : Nat) (hC : InvC s) (hD 
     have hin : c.inExport = false := by rw [h2, (hC.exitedClean hw).2.1]; rfl
     have hdl := delivered_of_covered s.blocking s.sdPre s.exported s.droppedIds dropped (hF.exitedOK hw) hd hD.dropNB
     rw [← h1, ← h5] at hdl
+    obtain ⟨pre, hpre⟩ := hown
     simp only [emitRaw, List.foldl_cons, List.foldl_nil, scanStep, Bool.not_true, Bool.false_eq_true, if_false, hin,
-      hdl, if_true]
-    refine ⟨h1, ?_, h3, h4, h5, ?_, h7, h8, h9, h10, h11, h12⟩ <;> simp_all
+      hdl, if_true, hpre]
+    split <;> (refine ⟨h1, ?_, h3, h4, h5, ?_, h7, h8, h9, h10, h11, h12⟩ <;> simp_all)
   · simp at hs
 
 /-- a further Shutdown call: the scanner keeps the `pre` set of the first call -/
@@ -412,12 +524,13 @@ theorem sim_sdCallLate (s s' : St) (cid : Nat) (c : Scan) (bl : Bool) (dropped :
     simp at hs; subst hs
     have hc : c.sdCalled = true := h4.mpr (fun e => hg (Or.inl e))
     simp only [emitRaw, List.foldl_cons, List.foldl_nil, scanStep, hc, if_true]
-    exact ⟨h1, h2, h3, h4, h5, h6, h7, h8, h9, h10, h11, h12⟩
+    refine ⟨h1, h2, h3, ?_, h5, h6, h7, h8, h9, h10, ?_, h12⟩ <;> simp_all
 
 /-- a further Shutdown call returns nil: only after the winner's once-function returned, i.e. after the worker
 exited and the exporter was shut down — the scanner's checks pass as for the first call -/
 theorem sim_sdReturnLate (s s' : St) (cid : Nat) (c : Scan) (dropped : Nat) (hC : InvC s) (hD : InvD s)
-    (hF : InvF s) (h : Sim s c) (hs : step s (.sdReturnLate cid) = some s') (hd : s.droppedIds.length ≤ dropped) :
+    (hF : InvF s) (h : Sim s c) (hown : ∃ pre, c.sdPres[c.sdOkRets]? = some pre)
+    (hs : step s (.sdReturnLate cid) = some s') (hd : s.droppedIds.length ≤ dropped) :
     Sim s' ((emitRaw s (.sdReturnLate cid)).foldl (scanStep s.blocking dropped) c) := by
   obtain ⟨h1, h2, h3, h4, h5, h6, h7, h8, h9, h10, h11, h12⟩ := h
   simp only [step] at hs
@@ -428,14 +541,137 @@ theorem sim_sdReturnLate (s s' : St) (cid : Nat) (c : Scan) (dropped : Nat) (hC 
     have hin : c.inExport = false := by rw [h2, (hC.exitedClean hw).2.1]; rfl
     have hdl := delivered_of_covered s.blocking s.sdPre s.exported s.droppedIds dropped (hF.exitedOK hw) hd hD.dropNB
     rw [← h1, ← h5] at hdl
+    obtain ⟨pre, hpre⟩ := hown
     simp only [emitRaw, List.foldl_cons, List.foldl_nil, scanStep, Bool.not_true, Bool.false_eq_true, if_false, hin,
-      hdl, if_true]
-    refine ⟨h1, ?_, h3, h4, h5, ?_, h7, h8, h9, h10, h11, h12⟩ <;> simp_all
+      hdl, if_true, hpre]
+    split <;> (refine ⟨h1, ?_, h3, h4, h5, ?_, h7, h8, h9, h10, h11, h12⟩ <;> simp_all)
+  · simp at hs
+
+theorem scanStep_sdCalled_pres (bl : Bool) (d : Nat) (c : Scan) :
+    (scanStep bl d c .sdCalled).sdPres = c.sdPres ++ [c.ended] ∧
+    (scanStep bl d c .sdCalled).sdOkRets = c.sdOkRets := by
+  simp only [scanStep]
+  split <;> simp
+
+theorem scanStep_sdReturned_pres (bl : Bool) (d : Nat) (c : Scan) :
+    (scanStep bl d c (.sdReturned true)).sdPres = c.sdPres ∧
+    (scanStep bl d c (.sdReturned true)).sdOkRets = c.sdOkRets + 1 := by
+  simp only [scanStep]
+  repeat' split
+  all_goals simp_all
+
+theorem map_pre_setRet (cid : Nat) (sds : List SD) :
+    (sds.map fun c => if c.cid = cid then { c with ret := true } else c).map (·.pre) = sds.map (·.pre) := by
+  simp only [List.map_map]
+  congr 1
+  funext c
+  simp only [Function.comp]
+  split <;> rfl
+
+/-- at a nil return of a Shutdown call the scanner finds a `pre` set for it, and it is one of the model's -/
+theorem own_pre_exists (s : St) (c : Scan) (hsd : SimSd s c) (hne : s.sd ≠ .none)
+    (hlt : sdOkCount s < 1 + s.sds.length) :
+    ∃ pre, c.sdPres[c.sdOkRets]? = some pre ∧ pre ∈ sdPresOf s := by
+  rw [hsd.pres, hsd.oks]
+  have hl : sdOkCount s < (sdPresOf s).length := by rw [length_sdPresOf s hne]; exact hlt
+  exact ⟨(sdPresOf s)[sdOkCount s], List.getElem?_eq_getElem hl, List.getElem_mem hl⟩
+
+theorem own_pre_sdReturnOk (s s' : St) (c : Scan) (hsd : SimSd s c) (hs : step s .sdReturnOk = some s') :
+    ∃ pre, c.sdPres[c.sdOkRets]? = some pre ∧ pre ∈ sdPresOf s := by
+  simp only [step] at hs
+  split at hs
+  · rename_i hg
+    have hne : s.sd ≠ .none := by simp [hg.1]
+    apply own_pre_exists s c hsd hne
+    have := List.countP_le_length (p := fun c : SD => c.ret) (l := s.sds)
+    simp only [sdOkCount, hg.2]
+    simp only [Bool.false_eq_true, if_false]
+    omega
+  · simp at hs
+
+theorem own_pre_sdReturnLate (s s' : St) (cid : Nat) (c : Scan) (hC : InvC s) (hsd : SimSd s c)
+    (hs : step s (.sdReturnLate cid) = some s') :
+    ∃ pre, c.sdPres[c.sdOkRets]? = some pre ∧ pre ∈ sdPresOf s := by
+  simp only [step] at hs
+  split at hs
+  · rename_i hg
+    have hne : s.sd ≠ .none := by simp [hC.retSd hg.1]
+    apply own_pre_exists s c hsd hne
+    have hex : ∃ c0 ∈ s.sds, c0.ret = false := by
+      have := hg.2
+      simp only [List.any_eq_true, decide_eq_true_eq] at this
+      obtain ⟨c0, hc0, _, hr⟩ := this
+      exact ⟨c0, hc0, hr⟩
+    have := countP_lt_of_exists s.sds hex
+    simp only [sdOkCount, hg.1, if_true]
+    omega
+  · simp at hs
+
+/-- the four Shutdown call / return labels keep the bookkeeping in step -/
+theorem simSd_sd (s s' : St) (l : Lbl) (c : Scan) (bl : Bool) (d : Nat) (hL : InvL s) (hsim : Sim s c)
+    (h : SimSd s c) (hs : step s l = some s')
+    (hl : l = .sdCall ∨ l = .sdReturnOk ∨ (∃ cid, l = .sdCallLate cid) ∨ (∃ cid, l = .sdReturnLate cid)) :
+    SimSd s' ((emitRaw s l).foldl (scanStep bl d) c) := by
+  obtain ⟨hp, ho⟩ := h
+  rcases hl with hl | hl | ⟨cid, hl⟩ | ⟨cid, hl⟩ <;> subst hl <;> simp only [step] at hs <;> split at hs
+  · -- sdCall
+    rename_i hg
+    simp at hs; subst hs
+    have hsds : s.sds = [] := by
+      apply Classical.byContradiction
+      intro hne
+      exact hL.called hne hg
+    have hc := scanStep_sdCalled_pres bl d c
+    simp only [emitRaw, List.foldl_cons, List.foldl_nil]
+    constructor
+    · rw [hc.1, hp, hsim.ended]
+      simp [sdPresOf, hg, hsds]
+    · rw [hc.2, ho]
+      simp [sdOkCount]
+  · simp at hs
+  · -- sdReturnOk
+    rename_i hg
+    simp at hs; subst hs
+    have hc := scanStep_sdReturned_pres bl d c
+    simp only [emitRaw, List.foldl_cons, List.foldl_nil]
+    constructor
+    · rw [hc.1, hp]
+      simp [sdPresOf]
+    · rw [hc.2, ho]
+      simp [sdOkCount, hg.2]
+      omega
+  · simp at hs
+  · simp at hs
+  · -- sdCallLate
+    rename_i hg
+    simp at hs; subst hs
+    have hne : s.sd ≠ .none := fun e => hg (Or.inl e)
+    have hc := scanStep_sdCalled_pres bl d c
+    simp only [emitRaw, List.foldl_cons, List.foldl_nil]
+    constructor
+    · rw [hc.1, hp, hsim.ended]
+      simp [sdPresOf, hne]
+    · rw [hc.2, ho]
+      simp [sdOkCount]
+  · -- sdReturnLate
+    rename_i hg
+    simp only [Option.some.injEq] at hs; subst hs
+    have hc := scanStep_sdReturned_pres bl d c
+    simp only [emitRaw, List.foldl_cons, List.foldl_nil]
+    have hex : ∃ c0 ∈ s.sds, c0.cid = cid ∧ c0.ret = false := by
+      have := hg.2
+      simpa only [List.any_eq_true, decide_eq_true_eq] using this
+    constructor
+    · rw [hc.1, hp]
+      simp only [sdPresOf, ← List.map_reverse, map_pre_setRet]
+    · rw [hc.2, ho]
+      simp only [sdOkCount, countP_setRet cid s.sds hL.uniq hex]
+      omega
   · simp at hs
 
 /-- one step of the LTS, followed by the scanner on the events it emits, preserves the simulation -/
 theorem sim_step (s s' : St) (l : Lbl) (c : Scan) (dropped : Nat) (hI : Inv s) (hS : InvS s) (h : Sim s c)
-    (hs : step s l = some s') (hd : s.droppedIds.length ≤ dropped) :
+    (hsd : SimSd s c) (hs : step s l = some s') (hd : s.droppedIds.length ≤ dropped) :
     Sim s' ((emit s l).foldl (scanStep s.blocking dropped) c) := by
   rw [emit_of_step hs]
   cases l
@@ -452,27 +688,143 @@ theorem sim_step (s s' : St) (l : Lbl) (c : Scan) (dropped : Nat) (hI : Inv s) (
   case ffCancel fid => exact sim_ffCancel s s' fid c _ dropped h hs
   case sdCall => exact sim_sdCall s s' c _ dropped h hs
   case sdExporterShutdown => exact sim_sdExporterShutdown s s' c _ dropped hI.c h hs
-  case sdReturnOk => exact sim_sdReturnOk s s' c dropped hI.c hI.d hI.f h hs hd
+  case sdReturnOk =>
+    obtain ⟨pre, hpre, _⟩ := own_pre_sdReturnOk s s' c hsd hs
+    exact sim_sdReturnOk s s' c dropped hI.c hI.d hI.f h ⟨pre, hpre⟩ hs hd
   case sdCallLate cid => exact sim_sdCallLate s s' cid c _ dropped h hs
-  case sdReturnLate cid => exact sim_sdReturnLate s s' cid c dropped hI.c hI.d hI.f h hs hd
+  case sdReturnLate cid =>
+    obtain ⟨pre, hpre, _⟩ := own_pre_sdReturnLate s s' cid c hI.c hsd hs
+    exact sim_sdReturnLate s s' cid c dropped hI.c hI.d hI.f h ⟨pre, hpre⟩ hs hd
   all_goals exact sim_silent s s' _ c h hs (by simp)
 
+theorem simSd_step (s s' : St) (l : Lbl) (c : Scan) (bl : Bool) (d : Nat) (hL : InvL s) (hsim : Sim s c)
+    (h : SimSd s c) (hs : step s l = some s') : SimSd s' ((emit s l).foldl (scanStep bl d) c) := by
+  rw [emit_of_step hs]
+  by_cases hl : l = .sdCall ∨ l = .sdReturnOk ∨ (∃ cid, l = .sdCallLate cid) ∨ (∃ cid, l = .sdReturnLate cid)
+  · exact simSd_sd s s' l c bl d hL hsim h hs hl
+  · refine simSd_other s s' l c bl d h hs ?_
+    simp only [not_or, not_exists] at hl
+    exact hl
+
+/-! ### the F41 flag is raised only when a late span sits in the exited worker's queue -/
+
+theorem scanStep_f41_other (bl : Bool) (d : Nat) (c : Scan) (ev : Ev) (h : ev ≠ .sdReturned true) :
+    (scanStep bl d c ev).f41 = c.f41 := by
+  cases ev <;> simp only [scanStep] <;> (repeat' split) <;> simp_all
+
+theorem foldl_f41_other (bl : Bool) (d : Nat) (evs : List Ev) (c : Scan) (h : ∀ ev ∈ evs, ev ≠ .sdReturned true) :
+    (evs.foldl (scanStep bl d) c).f41 = c.f41 := by
+  induction evs generalizing c with
+  | nil => rfl
+  | cons ev r ih =>
+    rw [List.foldl_cons, ih _ (fun e he => h e (List.mem_cons_of_mem _ he)),
+      scanStep_f41_other bl d c ev (h ev (List.mem_cons_self ..))]
+
+/-- about ANY scanner state (any history, not only the model's): the F41 flag is newly raised only by a nil
+return of a Shutdown call, only when every span ended before the FIRST Shutdown call is delivered
+(`delivered … sdPre`), and only because the call's own `pre` set is not — a span whose `ended` precedes the
+first `sdCalled` is never classified F41, its loss is the failure `S5:shutdown` -/
+theorem scanStep_f41_new (bl : Bool) (d : Nat) (c : Scan) (ev : Ev) (hnew : (scanStep bl d c ev).f41 = true)
+    (hold : c.f41 = false) :
+    ev = .sdReturned true ∧ Spec.delivered bl c.sdPre c.batches d = true ∧
+    ∃ pre, c.sdPres[c.sdOkRets]? = some pre ∧ Spec.delivered bl pre c.batches d = false := by
+  by_cases hev : ev = .sdReturned true
+  · subst hev
+    simp only [scanStep, Bool.not_true, Bool.false_eq_true, if_false] at hnew
+    repeat' (split at hnew)
+    all_goals (first
+      | (simp [hold] at hnew; done)
+      | (rename_i hd1 _ pre hpre hd2
+         exact ⟨rfl, hd1, pre, hpre, by simpa using hd2⟩))
+  · rw [scanStep_f41_other bl d c ev hev, hold] at hnew
+    cases hnew
+
+theorem emit_ret_only (s : St) (l : Lbl) (hl : l ≠ .sdReturnOk ∧ ∀ cid, l ≠ .sdReturnLate cid) :
+    ∀ ev ∈ emitRaw s l, ev ≠ .sdReturned true := by
+  obtain ⟨a1, a2⟩ := hl
+  cases l <;> simp only [emitRaw] <;> (repeat' split) <;> simp_all
+
+/-- in the model, when the worker has exited and no late span sits in its queue, every `pre` set of a Shutdown
+call is delivered in the oracle's sense -/
+theorem delivered_own_of_no_late (s : St) (dropped : Nat) (hI : Inv s) (hw : s.w = .exited)
+    (hno : LateEnd_applies s = false) (pre : List Nat) (hpre : pre ∈ sdPresOf s)
+    (hd : s.droppedIds.length ≤ dropped) : Spec.delivered s.blocking pre s.exported dropped = true := by
+  have hq : spansOf s.queue = [] := by simpa [LateEnd_applies, hw] using hno
+  have hseen : ∀ id ∈ pre, id ∈ s.seen := by
+    rcases mem_sdPresOf s pre hpre with ⟨_, he⟩ | ⟨c, hc, he⟩
+    · subst he; exact hI.f.preSeen
+    · subst he; exact hI.l.preSeen c hc
+  have hcl := hI.c.exitedClean hw
+  apply delivered_of_covered s.blocking pre s.exported s.droppedIds dropped ?_ hd hI.d.dropNB
+  intro id hid
+  have hpl := hI.d.seenPlaced id (hseen id hid)
+  unfold placed at hpl
+  simp only [hq, hcl.1, hcl.2.2, handL, List.not_mem_nil, false_or] at hpl
+  exact hpl
+
+theorem f41_step (s s' : St) (l : Lbl) (c : Scan) (dropped : Nat) (hI : Inv s) (hsim : Sim s c) (hsd : SimSd s c)
+    (hf : c.f41 = true → LateEnd_applies s = true) (hs : step s l = some s')
+    (hd : s.droppedIds.length ≤ dropped) :
+    ((emit s l).foldl (scanStep s.blocking dropped) c).f41 = true → LateEnd_applies s' = true := by
+  rw [emit_of_step hs]
+  intro hnew
+  apply lateEnd_step s s' l hs
+  by_cases hl : l = .sdReturnOk ∨ ∃ cid, l = .sdReturnLate cid
+  · -- a Shutdown call returns nil: the worker has exited
+    have hw : s.w = .exited ∧ emitRaw s l = [.sdReturned true] := by
+      rcases hl with hl | ⟨cid, hl⟩ <;> subst hl <;> simp only [step] at hs <;> split at hs
+      · rename_i hg; exact ⟨hI.c.shutExited hg.1, rfl⟩
+      · simp at hs
+      · rename_i hg; exact ⟨hI.c.shutExited (hI.c.retSd hg.1), rfl⟩
+      · simp at hs
+    rw [hw.2, List.foldl_cons, List.foldl_nil] at hnew
+    cases hold : c.f41 with
+    | true => exact hf hold
+    | false =>
+      obtain ⟨_, _, pre, hpre, hnd⟩ := scanStep_f41_new s.blocking dropped c _ hnew hold
+      cases hno : LateEnd_applies s with
+      | true => rfl
+      | false =>
+        have hmem : pre ∈ sdPresOf s := by
+          rw [hsd.pres, hsd.oks] at hpre
+          exact List.mem_of_getElem? hpre
+        have := delivered_own_of_no_late s dropped hI hw.1 hno pre hmem hd
+        rw [← hsim.batches, hnd] at this
+        cases this
+  · simp only [not_or, not_exists] at hl
+    rw [foldl_f41_other _ _ _ _ (emit_ret_only s l hl)] at hnew
+    exact hf hnew
+
+/-- the whole simulation: the mirror of the ghost state, the per-call bookkeeping, and the F41 flag -/
+structure FullSim (s : St) (c : Scan) : Prop where
+  sim : Sim s c
+  sd : SimSd s c
+  f41 : c.f41 = true → LateEnd_applies s = true
+
 /-- the simulation holds along every history of the model, for every reported counter that covers the dropped ids -/
-theorem sim_reachableH {cap maxB : Nat} {blocking : Bool} (hpos : 1 ≤ maxB) (dropped : Nat) (s : St) (h : List Ev)
-    (hr : ReachableH cap maxB blocking s h) (hd : s.droppedIds.length ≤ dropped) :
-    Sim s (h.foldl (scanStep blocking dropped) {}) := by
+theorem fullSim_reachableH {cap maxB : Nat} {blocking : Bool} (hpos : 1 ≤ maxB) (dropped : Nat) (s : St)
+    (h : List Ev) (hr : ReachableH cap maxB blocking s h) (hd : s.droppedIds.length ≤ dropped) :
+    FullSim s (h.foldl (scanStep blocking dropped) {}) := by
   induction hr with
-  | init => exact sim_init cap maxB blocking
+  | init => exact ⟨sim_init cap maxB blocking, simSd_init cap maxB blocking, by simp⟩
   | @step s s' h l hr' hs ih =>
     have hreach := hr'.reachable
     have hI := inv_reachable cap maxB blocking hpos s hreach
     have hS := invS_reachable hreach
     have hd' : s.droppedIds.length ≤ dropped := Nat.le_trans (step_dropped_mono s s' l hs) hd
     have hbl : s.blocking = blocking := (reachable_cfg hreach).2.2
+    obtain ⟨i1, i2, i3⟩ := ih hd'
     rw [List.foldl_append]
-    have := sim_step s s' l _ dropped hI hS (ih hd') hs hd'
-    rw [hbl] at this
-    exact this
+    have a1 := sim_step s s' l _ dropped hI hS i1 i2 hs hd'
+    have a2 := simSd_step s s' l _ blocking dropped hI.l i1 i2 hs
+    have a3 := f41_step s s' l _ dropped hI i1 i2 i3 hs hd'
+    rw [hbl] at a1 a3
+    exact ⟨a1, a2, a3⟩
+
+theorem sim_reachableH {cap maxB : Nat} {blocking : Bool} (hpos : 1 ≤ maxB) (dropped : Nat) (s : St) (h : List Ev)
+    (hr : ReachableH cap maxB blocking s h) (hd : s.droppedIds.length ≤ dropped) :
+    Sim s (h.foldl (scanStep blocking dropped) {}) :=
+  (fullSim_reachableH hpos dropped s h hr hd).sim
 
 /-! ### facts about the scanner alone and about the events the model emits -/
 
